@@ -160,46 +160,229 @@ HEADER = ('From PV Require Import Base.Num Model.IMU.\nFrom Coq Require Import L
 
 # ------------------------------------------------------------------------------------------------
 # the implementation
-def shaped(torch, data, rank, dtype, last):
+LAYOUTS = ('fresh', 'views', 'transposed', 'strided', 'expand')
+DEFAULT_STATE = dict(pos=[0.0, 0.0, 0.0], rot=[0.0, 0.0, 0.0, 1.0], vel=[0.0, 0.0, 0.0])
+
+
+def per_item(v):
+    """a state component is one vector (broadcast over the batch) or a list of B vectors (one per IMU)"""
+    return isinstance(v[0], (list, tuple))
+
+
+def state_of(d):
+    """(pos, rot, vel) components of a scenario / an init dict; None = the constructor's documented defaults"""
+    return {k: (DEFAULT_STATE[k] if d.get(k) is None else d[k]) for k in ('pos', 'rot', 'vel')}
+
+
+def state_items(d):
+    """list (length 1 = broadcast, or B) of (rot, vel, pos) float vectors"""
+    s = state_of(d)
+    n = max([len(s[k]) for k in s if per_item(s[k])] or [1])
+    pick = lambda v, b: (v[b] if per_item(v) else v)
+    return [(pick(s['rot'], b), pick(s['vel'], b), pick(s['pos'], b)) for b in range(n)]
+
+
+def all_states(sc):
+    res = list(state_items(sc))
+    for c in sc['calls']:
+        if c.get('init') is not None:
+            res += state_items(c['init'])
+    return res
+
+
+class Watch:
+    """every tensor handed to the implementation (and the base of every view) is snapshotted before a call and
+    compared bit for bit afterwards: forward / integrate / predict / propagate_cov have no trailing underscore"""
+
+    def __init__(self, torch):
+        self.torch, self.items, self.snaps = torch, [], []
+
+    def add(self, name, t):
+        if t is not None:
+            self.items.append((name, t))
+        return t
+
+    def snap(self):
+        self.snaps = [t.detach().clone() for _, t in self.items]
+
+    def diff(self):
+        torch = self.torch
+        for (name, t), s in zip(self.items, self.snaps):
+            t = t.detach()
+            if t.shape != s.shape or t.dtype != s.dtype:
+                return '%s changed shape / dtype: %s %s -> %s %s' % (name, tuple(s.shape), s.dtype, tuple(t.shape), t.dtype)
+            if not (torch.equal(t, s) and torch.equal(torch.signbit(t), torch.signbit(s))):
+                ne = ((t != s) | (torch.signbit(t) != torch.signbit(s))).nonzero()
+                i = tuple(int(x) for x in ne[0])
+                return ('%s was modified in place: element %s was %r, is %r after the call (%d elements differ)'
+                        % (name, list(i), float(s[i]), float(t[i]), len(ne)))
+        return None
+
+
+def build_tensor(torch, data, rank, dtype, last, layout, watch, name):
+    """data [B][F] (last == 1) or [B][F][last] -> tensor of the given rank with the given memory layout"""
     t = torch.tensor(data, dtype=dtype)
     if last == 1:
         t = t.unsqueeze(-1)
+    if t.dim() == 3 and t.numel() > 0:
+        B, F, H = t.shape
+        if layout == 'transposed':                        # same values, reversed strides
+            t = t.permute(2, 1, 0).contiguous().permute(2, 1, 0)
+        elif layout == 'strided':                         # every second frame of a wider buffer
+            big = torch.full((B, 2 * F + 1, H), 7.5, dtype=dtype)
+            big[:, 1::2] = t
+            watch.add(name + ' (buffer the strided view was taken from)', big)
+            t = big[:, 1::2]
+        elif layout == 'expand':                          # stride 0 where the data is constant
+            if bool((t == t[:1, :1]).all()):
+                t = watch.add(name + ' (tensor the expanded view was taken from)', t[:1, :1].clone()).expand(B, F, H)
+            elif bool((t == t[:, :1]).all()):
+                t = watch.add(name + ' (tensor the expanded view was taken from)', t[:, :1].clone()).expand(B, F, H)
     if rank == 2:
         t = t[0]
     elif rank == 1:
         t = t[0, 0]
+    return watch.add(name, t)
+
+
+def state_tensors(pp, torch, d, dtype, watch, name):
+    """tensors of a (pos, rot, vel) description: one vector -> rank d['form'] (1: (H), 2: (1,H), 3: (1,1,H));
+    one vector per IMU -> (B,1,H)"""
+    s = state_of(d)
+    form = d.get('form', 1)
+    out = {}
+    for k in ('pos', 'rot', 'vel'):
+        t = torch.tensor(s[k], dtype=dtype)
+        if per_item(s[k]):
+            t = t.unsqueeze(1)
+        else:
+            for _ in range(form - 1):
+                t = t.unsqueeze(0)
+        watch.add('%s[%s]' % (name, k), t)
+        out[k] = pp.SO3(t) if k == 'rot' else t
+    return out
+
+
+def cov_arg(torch, v, dtype, watch=None, name=''):
+    if isinstance(v, float):
+        return v
+    t = torch.tensor(v, dtype=dtype)
+    if watch is not None:
+        watch.add(name, t)
     return t
 
 
-def make_module(pp, torch, sc):
+def make_module(pp, torch, sc, watch=None):
     dtype = getattr(torch, sc['dtype'])
-    T = lambda x: torch.tensor(x, dtype=dtype)
-    gc = sc['gyro_cov'] if isinstance(sc['gyro_cov'], float) else T(sc['gyro_cov'])
-    ac = sc['acc_cov'] if isinstance(sc['acc_cov'], float) else T(sc['acc_cov'])
-    m = pp.module.IMUPreintegrator(T(sc['pos']), pp.SO3(T(sc['rot'])), T(sc['vel']), gravity=sc['gravity'],
-                                   gyro_cov=gc, acc_cov=ac, prop_cov=sc['prop_cov'], reset=sc['reset'])
+    watch = watch or Watch(torch)
+    kw = dict(gravity=sc['gravity'], prop_cov=sc['prop_cov'], reset=sc['reset'])
+    if sc.get('gyro_cov') is not None:
+        kw['gyro_cov'] = cov_arg(torch, sc['gyro_cov'], dtype, watch, 'constructor argument gyro_cov')
+    if sc.get('acc_cov') is not None:
+        kw['acc_cov'] = cov_arg(torch, sc['acc_cov'], dtype, watch, 'constructor argument acc_cov')
+    if sc.get('pos') is None and sc.get('rot') is None and sc.get('vel') is None:
+        m = pp.module.IMUPreintegrator(**kw)               # documented defaults: zero position / velocity, identity
+    else:
+        st = state_tensors(pp, torch, dict(sc, form=sc.get('state_form', 1)), dtype, watch, 'constructor argument')
+        m = pp.module.IMUPreintegrator(st['pos'], st['rot'], st['vel'], **kw)
     return m.to(dtype)
 
 
-def call_module(pp, torch, m, c, dtype):
-    rk = c['ranks']
-    dt = shaped(torch, c['dt'], rk[0], dtype, 1)
-    gyro = shaped(torch, c['gyro'], rk[1], dtype, 3)
-    acc = shaped(torch, c['acc'], rk[2], dtype, 3)
-    rot = None if c.get('rot') is None else pp.SO3(shaped(torch, c['rot'], rk[3], dtype, 4))
-    return m(dt, gyro, acc, rot)
+def views_applicable(sc):
+    cs = sc['calls']
+    return (len(cs) >= 1 and all(c['ranks'] == [3, 3, 3, 3] for c in cs)
+            and all((c.get('rot') is None) == (cs[0].get('rot') is None) for c in cs)
+            and all(len(c[k]) == len(cs[0]['dt']) for c in cs for k in ('dt', 'gyro', 'acc'))
+            and all(len(set(len(row) for k in ('dt', 'gyro', 'acc') + (('rot',) if c.get('rot') is not None else ()) for row in c[k])) == 1 for c in cs))
 
 
-def run_impl(pp, torch, sc):
-    """-> dict(ctor_raised, g, cg, ca, calls=[dict(out, inc, jr)])"""
+class Args:
+    """the tensors of the calls of one scenario, in the scenario's memory layout"""
+
+    def __init__(self, pp, torch, sc, watch, layout=None):
+        self.pp, self.torch, self.sc, self.watch = pp, torch, sc, watch
+        self.dtype = getattr(torch, sc['dtype'])
+        self.layout = layout or sc.get('layout', 'fresh')
+        self.full = None
+        if self.layout == 'views':
+            if views_applicable(sc):                      # every chunk is a view of one tensor holding the whole stream
+                cs = sc['calls']
+                cat = lambda key: [sum((c[key][b] for c in cs), []) for b in range(len(cs[0]['dt']))]
+                self.full = {}
+                for key, last in (('dt', 1), ('gyro', 3), ('acc', 3), ('rot', 4)):
+                    if key == 'rot' and cs[0].get('rot') is None:
+                        continue
+                    self.full[key] = build_tensor(torch, cat(key), 3, self.dtype, last, 'fresh', watch, 'the stream tensor %s' % key)
+                self.offs = [0]
+                for c in cs:
+                    self.offs.append(self.offs[-1] + len(c['dt'][0]))
+            else:
+                self.layout = 'fresh'
+
+    def call(self, ci):
+        """-> (positional dt, gyro, acc), keyword arguments"""
+        pp, torch, sc, w = self.pp, self.torch, self.sc, self.watch
+        c = sc['calls'][ci]
+        rk = c['ranks']
+        pos = []
+        rot = None
+        if self.full is not None:
+            a, b = self.offs[ci], self.offs[ci + 1]
+            pos = [w.add('call %d argument %s' % (ci, k), self.full[k][:, a:b]) for k in ('dt', 'gyro', 'acc')]
+            if 'rot' in self.full:
+                rot = pp.SO3(w.add('call %d argument rot' % ci, self.full['rot'][:, a:b]))
+        else:
+            for key, r, last in (('dt', rk[0], 1), ('gyro', rk[1], 3), ('acc', rk[2], 3)):
+                pos.append(build_tensor(torch, c[key], r, self.dtype, last, self.layout, w, 'call %d argument %s' % (ci, key)))
+            if c.get('rot') is not None:
+                rot = pp.SO3(build_tensor(torch, c['rot'], rk[3], self.dtype, 4, self.layout, w, 'call %d argument rot' % ci))
+        kw = {}
+        if rot is not None:
+            kw['rot'] = rot
+        cc = sc.get('call_cov')
+        if cc is not None:                                  # per-call sensor covariances (optional arguments of forward)
+            for key in ('gyro_cov', 'acc_cov'):             # form 1: (3), form 3: (B,1,3) as the module builds it itself
+                v = [[cc[key]]] * len(c['dt']) if cc.get('form', 1) == 3 else cc[key]
+                kw[key] = cov_arg(torch, v, self.dtype, w, 'call %d argument %s' % (ci, key))
+        if c.get('init') is not None:                       # init_state (optional argument of forward)
+            kw['init_state'] = state_tensors(pp, torch, c['init'], self.dtype, w, 'call %d argument init_state' % ci)
+        return pos, kw
+
+
+def do_call(m, pos, kw, positional_rot=False):
+    if positional_rot and set(kw) <= {'rot'}:
+        return m(*pos, kw.get('rot'))
+    return m(*pos, **kw)
+
+
+def extract(torch, o, c):
+    """outputs of one call as lists, or a description of wrong shapes"""
+    Bn, Fn = len(c['dt']), len(c['dt'][0])
+    want = dict(rot=(Bn, Fn, 4), vel=(Bn, Fn, 3), pos=(Bn, Fn, 3))
+    got = {k: tuple(o[k].shape) for k in want}
+    if o.get('cov') is not None:
+        want['cov'], got['cov'] = (Bn, 9, 9), tuple(o['cov'].shape)
+    if got != want:
+        return None, 'outputs have shapes %s, documented (B, F, H) / (B, 9, 9) = %s' % (got, want)
+    return dict(rot=o['rot'].tensor().tolist(), vel=o['vel'].tolist(), pos=o['pos'].tolist(),
+                cov=None if o.get('cov') is None else o['cov'].tolist()), None
+
+
+def run_impl(pp, torch, sc, layout=None):
+    """-> dict(ctor_raised, g, cg, ca, calls=[dict(out, inc, jr)], mutated, errs, shape_errs)"""
     dtype = getattr(torch, sc['dtype'])
+    watch = Watch(torch)
     try:
-        m = make_module(pp, torch, sc)
+        m = make_module(pp, torch, sc, watch)
     except RuntimeError as e:
         return dict(ctor_raised=True, err=str(e)[:200], g=sc['gravity'], cg=[0, 0, 0], ca=[0, 0, 0], calls=[])
     res = dict(ctor_raised=False, g=float(m.gravity[2]), cg=[float(x) for x in m.gyro_cov.reshape(-1)[:3]],
                ca=[float(x) for x in m.acc_cov.reshape(-1)[:3]], calls=[])
-    for c in sc['calls']:
+    if sc.get('call_cov') is not None:                      # the values the calls are given, in the module's dtype
+        r3 = lambda v: [float(x) for x in torch.tensor([v] * 3 if isinstance(v, float) else v, dtype=dtype)]
+        res['cg'], res['ca'] = r3(sc['call_cov']['gyro_cov']), r3(sc['call_cov']['acc_cov'])
+    args = Args(pp, torch, sc, watch, layout)
+    for ci, c in enumerate(sc['calls']):
         g3 = torch.tensor(c['gyro'], dtype=dtype)
         d3 = torch.tensor(c['dt'], dtype=dtype).unsqueeze(-1)
         if g3.shape[:2] == d3.shape[:2]:
@@ -207,25 +390,78 @@ def run_impl(pp, torch, sc):
         else:
             inc = pp.identity_SO3(g3.shape[0], g3.shape[1], dtype=dtype)
         jr = inc.Jr()
+        out = None
         try:
-            o = call_module(pp, torch, m, c, dtype)
+            pos, kw = args.call(ci)
+            watch.snap()
+            o = do_call(m, pos, kw, positional_rot=(ci % 2 == 0))
         except Exception as e:  # the call raised: the model must say None
             o = None
-            res.setdefault('errs', []).append(repr(e)[:200])
-        out = None
+            res.setdefault('errs', []).append('call %d: %r' % (ci, e))
+            res['errs'][-1] = res['errs'][-1][:240]
+        d = watch.diff() if len(watch.snaps) == len(watch.items) else None
+        if d and 'mutated' not in res:
+            res['mutated'] = 'call %d (%s): %s' % (ci, 'raised' if o is None else 'returned', d)
         if o is not None:
-            Bn, Fn = len(c['dt']), len(c['dt'][0])
-            want = dict(rot=(Bn, Fn, 4), vel=(Bn, Fn, 3), pos=(Bn, Fn, 3))
-            got = {k: tuple(o[k].shape) for k in want}
-            if o.get('cov') is not None:
-                want['cov'], got['cov'] = (Bn, 9, 9), tuple(o['cov'].shape)
-            if got != want:
-                res.setdefault('shape_errs', []).append('outputs have shapes %s, documented (B, F, H) / (B, 9, 9) = %s' % (got, want))
-            else:
-                out = dict(rot=o['rot'].tensor().tolist(), vel=o['vel'].tolist(), pos=o['pos'].tolist(),
-                           cov=None if o.get('cov') is None else o['cov'].tolist())
+            out, err = extract(torch, o, c)
+            if err:
+                res.setdefault('shape_errs', []).append(err)
         res['calls'].append(dict(out=out, inc=inc.tensor().tolist(), jr=jr.tolist()))
     return res
+
+
+def wellformed(sc):
+    """inside the documented domain: equal ranks, one B and one F >= 1 per call, batch sizes compatible with the states;
+    such a scenario must not raise"""
+    if not sc['reset'] and not sc['prop_cov']:
+        return False
+    Bs = []
+    for c in sc['calls']:
+        keys = ('dt', 'gyro', 'acc') + (('rot',) if c.get('rot') is not None else ())
+        if len(set(c['ranks'][:len(keys)])) != 1:
+            return False
+        B = len(c['dt'])
+        Fs = set(len(row) for k in keys for row in c[k])
+        if any(len(c[k]) != B for k in keys) or len(Fs) != 1 or min(Fs) < 1:
+            return False
+        if c['ranks'][0] < 3 and B != 1 or c['ranks'][0] == 1 and Fs != {1}:
+            return False
+        n = len(state_items(c['init'])) if c.get('init') is not None else 1
+        if n not in (1, B):
+            return False
+        Bs.append(B)
+    n = len(state_items(sc))
+    if n != 1 and any(B != n for B in Bs):
+        return False
+    if not sc['reset'] and len(set(Bs)) > 1:
+        return False
+    return True
+
+
+def model_view(sc, run):
+    """the scenario as the Coq model sees it (the model has no per-call init_state / covariance arguments): documented
+    equivalences - init_state given to the first call of a reset=False object, or to every call of a reset=True object,
+    = that state given to the constructor; covariances given to every call = given to the constructor.
+    None when the scenario has no such equivalent (oracle-only)."""
+    inits = [c.get('init') for c in sc['calls']]
+    if sc['reset'] and wellformed(sc) and len(set(len(c['dt']) for c in sc['calls'])) > 1:
+        # Model/IMU.v run_calls keeps the state list of a reset=True object at the batch size of its first call (the code keeps
+        # the (1,1,H) constructor buffers), so the model refuses a later call with another batch size: oracle-only
+        return None
+    if len(state_items(sc)) != 1 or any(i is not None and len(state_items(i)) != 1 for i in inits):
+        return None
+    flat = lambda d: dict(zip(('rot', 'vel', 'pos'), state_items(d)[0]))      # one state, also when written as a list of one
+    st = flat(sc)
+    if any(i is not None for i in inits):
+        first = flat(inits[0]) if inits[0] is not None else None
+        if not sc['reset'] and first is not None and all(i is None for i in inits[1:]):
+            st = first
+        elif sc['reset'] and first is not None and all(i is not None and flat(i) == first for i in inits):
+            st = first
+        else:
+            return None
+    calls = [{k: v for k, v in c.items() if k != 'init'} for c in sc['calls']]
+    return dict(sc, pos=st['pos'], rot=st['rot'], vel=st['vel'], calls=calls), run
 
 
 # ------------------------------------------------------------------------------------------------
@@ -234,8 +470,9 @@ def tolerances(sc, run, exact=False, cov_exact=False):
     eps = EPS[sc['dtype']]
     tols, N = [], 0
     g = abs(run['g'])
-    vmag = math.sqrt(sum(x * x for x in sc['vel']))
-    pmag = math.sqrt(sum(x * x for x in sc['pos']))
+    sts = all_states(sc)
+    vmag = max(math.sqrt(sum(x * x for x in v)) for _, v, _ in sts)
+    pmag = max(math.sqrt(sum(x * x for x in p)) for _, _, p in sts)
     A, T = 0.0, 0.0           # velocity budget, elapsed time (worst over the batch)
     for c, r in zip(sc['calls'], run['calls']):
         Fn = max(len(row) for row in c['dt'])
@@ -292,19 +529,21 @@ def oracle(sc, g):
          dR <- dR Exp(w dt), dv <- dv + dR a dt, dp <- dp + dv dt + 1/2 dR a dt^2   (dR, dv of the previous step)
          R = R0 dR, v = v0 + R0 dv, p = p0 + R0 dp + v0 T,    a = acc - Rg^-1 gravity,
        Rg = supplied rotation of the frame, else the integrated rotation R0 dR after the frame's increment;
-       reset=False: the next call starts from the last state.  g = gravity value held by the module."""
+       reset=False: the next call starts from the last state; a call given init_state starts from that state
+       ('the initial state of the integration'), otherwise from the carried / constructor state (documented defaults:
+       zero position and velocity, identity).  g = gravity value held by the module."""
     import mpmath
     mp = mpmath.mp
     mp.dps = 50
     M = lambda l: [mp.mpf(float(x)) for x in l]
     grav = [mp.mpf(0), mp.mpf(0), mp.mpf(float(g))]
-    init = None
+    S = lambda d: [(M(r), M(v), M(p)) for r, v, p in state_items(d)]
+    init = S(sc)
     outs = []
     for c in sc['calls']:
         B = len(c['dt'])
-        if init is None:
-            init = [(M(sc['rot']), M(sc['vel']), M(sc['pos']))]
-        st = init if len(init) == B else [init[0]] * B
+        base = S(c['init']) if c.get('init') is not None else init
+        st = base if len(base) == B else [base[0]] * B
         call_out, new = [], []
         for b in range(B):
             R0, v0, p0 = st[b]
@@ -387,6 +626,8 @@ def single_call(sc):
     c0 = sc['calls'][0]
     cat = lambda key: [sum((c[key][b] for c in sc['calls']), []) for b in range(len(c0[key]))]
     c = dict(ranks=[3, 3, 3, 3], dt=cat('dt'), gyro=cat('gyro'), acc=cat('acc'), rot=None if c0.get('rot') is None else cat('rot'))
+    if c0.get('init') is not None:
+        c['init'] = c0['init']
     return dict(sc, calls=[c])
 
 
@@ -395,7 +636,7 @@ def check_chunks(pp, torch, sc, run):
     returns (failure for rot/vel/pos or None, failure for cov or None, frames of the single call)"""
     if sc['reset'] or len(sc['calls']) < 2 or run['ctor_raised'] or any(r['out'] is None for r in run['calls']):
         return None, None, 0
-    if any(c['ranks'] != [3, 3, 3, 3] for c in sc['calls']):
+    if any(c['ranks'] != [3, 3, 3, 3] for c in sc['calls']) or not views_applicable(sc) or any(c.get('init') is not None for c in sc['calls'][1:]):
         return None, None, 0
     one = single_call(sc)
     r1 = run_impl(pp, torch, one)
@@ -443,6 +684,168 @@ def check_ranks(pp, torch, sc):
     return None
 
 
+def out_diff(oa, ob, t, factor=2.0):
+    """first difference between two output dicts beyond factor * tolerance (rot, vel, pos; cov with 16 t[3])"""
+    if (oa is None) != (ob is None):
+        return 'one of the two runs raised'
+    if oa is None:
+        return None
+    for key, tol in (('rot', t[0]), ('vel', t[1]), ('pos', t[2])):
+        for b in range(len(oa[key])):
+            for k in range(len(oa[key][b])):
+                err = max(abs(x - y) for x, y in zip(oa[key][b][k], ob[key][b][k]))
+                if not err <= factor * tol:
+                    return '%s of item %d frame %d: %s vs %s (|diff| = %.3g > %.3g)' % (key, b, k, oa[key][b][k], ob[key][b][k], err, factor * tol)
+    if (oa['cov'] is None) != (ob['cov'] is None):
+        return 'one run returns a covariance, the other none'
+    if oa['cov'] is not None:
+        for b in range(len(oa['cov'])):
+            scl = max(max(abs(x) for row in oa['cov'][b] for x in row), 1e-300)
+            err = max(abs(x - y) for ra, rb in zip(oa['cov'][b], ob['cov'][b]) for x, y in zip(ra, rb))
+            if not err <= 16 * t[3] + 1e-300:
+                return 'covariance of item %d differs by %.3g (max |C| = %.3g, relative %.3g)' % (b, err, scl, err / scl)
+    return None
+
+
+def check_reuse(pp, torch, sc, run):
+    """histories on one reset=True object with the SAME argument tensors: op(X); op(X) again; modify X in place; op(X)
+    = op(fresh copy of X) on a fresh object.  Returns a description of the first failure."""
+    if not wellformed(sc) or run['ctor_raised'] or not run['calls'] or run['calls'][0]['out'] is None:
+        return None
+    c0 = sc['calls'][0]
+    sc1 = dict(sc, reset=True, calls=[c0])
+    dtype = getattr(torch, sc['dtype'])
+    watch = Watch(torch)
+    m = make_module(pp, torch, sc1, watch)
+    pos, kw = Args(pp, torch, sc1, watch, 'fresh').call(0)
+    t = tolerances(sc1, dict(run, calls=run['calls'][:1]))[0]
+    outs = []
+    for rep in range(2):
+        try:
+            o, err = extract(torch, do_call(m, pos, kw), c0)
+        except Exception as e:
+            return 'call %d on one reset=True object with the same argument tensors raised %r' % (rep + 1, e)
+        if err:
+            return err
+        outs.append(o)
+    d = out_diff(run['calls'][0]['out'], outs[0], t)
+    if d:
+        return 'the first call on a reset=True object differs from the first call on the reset=%s object: %s' % (sc['reset'], d)
+    d = out_diff(outs[0], outs[1], t)
+    if d:
+        return 'the same tensors fed twice to one reset=True object give different outputs (2nd vs 1st call): ' + d
+    # modify the caller's tensors in place, call again
+    pos[2].mul_(0.5)
+    pos[1].neg_()
+    c1 = dict(c0, gyro=[[[-x for x in v] for v in row] for row in c0['gyro']],
+              acc=[[[0.5 * x for x in v] for v in row] for row in c0['acc']])
+    try:
+        o3, err = extract(torch, do_call(m, pos, kw), c0)
+    except Exception as e:
+        return 'third call (arguments modified in place by the caller) raised %r' % (e,)
+    sc2 = dict(sc1, calls=[c1], layout='fresh')
+    r2 = run_impl(pp, torch, sc2)
+    if r2['ctor_raised'] or r2['calls'][0]['out'] is None:
+        return None
+    d = out_diff(r2['calls'][0]['out'], o3, tolerances(sc2, r2)[0])
+    if d:
+        return ('after the caller halves acc and negates gyro in place, a further call on the same object differs from a '
+                'fresh object on fresh tensors of the same values: ' + d)
+    return None
+
+
+def check_per_item(pp, torch, sc, run):
+    """item b of a batched history = the same history of a single IMU fed item b's data (and item b's state)"""
+    if not wellformed(sc) or not run['calls'] or any(r['out'] is None for r in run['calls']):
+        return None
+    B = len(sc['calls'][0]['dt'])
+    if B < 2 or any(len(c['dt']) != B for c in sc['calls']):
+        return None
+    one = lambda v, b: (v if v is None or not per_item(v) else v[b])
+    tols = tolerances(sc, run)
+    for b in range(B):
+        calls = []
+        for c in sc['calls']:
+            c1 = dict(c, ranks=[3, 3, 3, 3], dt=[c['dt'][b]], gyro=[c['gyro'][b]], acc=[c['acc'][b]],
+                      rot=None if c.get('rot') is None else [c['rot'][b]])
+            if c.get('init') is not None:
+                c1['init'] = dict(c['init'], **{k: one(c['init'].get(k), b) for k in ('pos', 'rot', 'vel')})
+            calls.append(c1)
+        sb = dict(sc, calls=calls, layout='fresh', **{k: one(sc.get(k), b) for k in ('pos', 'rot', 'vel')})
+        rb = run_impl(pp, torch, sb)
+        if rb['ctor_raised'] or any(r['out'] is None for r in rb['calls']):
+            return 'item %d alone (B = 1) raises: %s' % (b, rb.get('errs') or rb.get('err'))
+        for ci, (ra, r1, t) in enumerate(zip(run['calls'], rb['calls'], tols)):
+            oa = {k: (None if ra['out'][k] is None else [ra['out'][k][b]]) for k in ('rot', 'vel', 'pos', 'cov')}
+            d = out_diff(oa, r1['out'], t)
+            if d:
+                return 'call %d: item %d of the batch of %d differs from the same data fed alone (B = 1): %s' % (ci, b, B, d)
+    return None
+
+
+def check_call_forms(pp, torch, sc, run):
+    """documented equivalence of call forms: 'If not given, the initial state / covariance in constructor will be used' -
+    so init_state / gyro_cov / acc_cov given to the call(s) = the same values given to the constructor"""
+    if sc.get('call_cov') is None and all(c.get('init') is None for c in sc['calls']):
+        return None
+    if not wellformed(sc) or run['ctor_raised'] or any(r['out'] is None for r in run['calls']):
+        return None
+    mv = model_view(sc, run)
+    if mv is None:
+        return None
+    plain = dict(mv[0], layout='fresh')
+    if sc.get('call_cov') is not None:
+        plain['gyro_cov'], plain['acc_cov'] = sc['call_cov']['gyro_cov'], sc['call_cov']['acc_cov']
+        del plain['call_cov']
+    rp = run_impl(pp, torch, plain)
+    if rp['ctor_raised'] or any(r['out'] is None for r in rp['calls']):
+        return None
+    for ci, (ra, r1, t) in enumerate(zip(run['calls'], rp['calls'], tolerances(sc, run))):
+        d = out_diff(ra['out'], r1['out'], t)
+        if d:
+            return ('call %d: arguments given to the call (init_state: %s, covariances: %s) and the same values given to the '
+                    'constructor give different outputs: %s' % (ci, sc['calls'][ci].get('init') is not None, sc.get('call_cov') is not None, d))
+    return None
+
+
+def check_handover(pp, torch, sc, run):
+    """the state a reset=False object has reached, handed to ANOTHER object through init_state (documented keys pos / rot /
+    vel taken from the returned dict, plus the carried cov / Rij), continues the stream exactly like the first object"""
+    if (sc['reset'] or len(sc['calls']) < 2 or not wellformed(sc) or run['ctor_raised']
+            or any(r['out'] is None for r in run['calls']) or any(c.get('init') is not None for c in sc['calls'][1:])):
+        return None
+    dtype = getattr(torch, sc['dtype'])
+    w = Watch(torch)
+    a = make_module(pp, torch, sc, w)
+    args = Args(pp, torch, sc, w, 'fresh')
+    tols = tolerances(sc, run)
+    other = dict(sc, pos=[1.5, -2.0, 0.25], rot=[0.5, -0.5, 0.5, 0.5], vel=[-0.75, 0.5, 2.0], state_form=1)
+    for ci in range(len(sc['calls']) - 1):
+        pos, kw = args.call(ci)
+        o = do_call(a, pos, kw)
+        init = dict(pos=o['pos'][:, -1:].clone(), rot=o['rot'][:, -1:].clone(), vel=o['vel'][:, -1:].clone())
+        full = dict(init, cov=a.cov.clone(), Rij=a.Rij.clone()) if getattr(a, 'Rij', None) is not None and a.cov is not None else None
+        pos, kw = Args(pp, torch, sc, Watch(torch), 'fresh').call(ci + 1)
+        for name, st in (('pos / rot / vel of the last returned frame', init), ('pos / rot / vel / cov / Rij', full)):
+            if st is None:
+                continue
+            b = make_module(pp, torch, other)
+            try:
+                ob, err = extract(torch, do_call(b, pos, dict(kw, init_state=st)), sc['calls'][ci + 1])
+            except Exception as e:
+                return 'call %d on a second object with init_state = %s of the first raised %r' % (ci + 1, name, e)
+            if err:
+                return err
+            ref = dict(run['calls'][ci + 1]['out'])
+            if st is init:
+                ref['cov'], ob['cov'] = None, None
+            d = out_diff(ref, ob, tols[ci + 1])
+            if d:
+                return ('call %d: a second object given init_state = %s reached by the first object after call %d does not '
+                        'continue the stream like the first object: %s' % (ci + 1, name, ci, d))
+    return None
+
+
 def property_check(pp, torch, sc, run=None):
     """all clauses of the property on the implementation; returns list of (key, what)"""
     if run is None:
@@ -450,6 +853,10 @@ def property_check(pp, torch, sc, run=None):
     res = []
     if run.get('shape_errs'):
         return [('IMUPreintegrator.forward:output-shape', run['shape_errs'][0])]
+    if run.get('mutated'):
+        res.append(('mutation:IMUPreintegrator.forward', run['mutated']))
+    if wellformed(sc) and (run['ctor_raised'] or run.get('errs')):
+        res.append(('IMUPreintegrator.forward:raises-on-documented-input', str(run.get('err') or run['errs'][0])))
     w = check_oracle(sc, run)
     if w:
         res.append(('IMUPreintegrator.forward:differs-from-documented-recursion', w))
@@ -464,6 +871,12 @@ def property_check(pp, torch, sc, run=None):
     w = check_ranks(pp, torch, sc)
     if w:
         res.append(('IMUPreintegrator.forward:rank-normalisation', w))
+    for key, fn in (('IMUPreintegrator.forward:same-tensors-fed-again', check_reuse), ('IMUPreintegrator.forward:batch-item-vs-single', check_per_item),
+                    ('IMUPreintegrator.forward:call-argument-vs-constructor-argument', check_call_forms),
+                    ('IMUPreintegrator.forward:init_state-handover', check_handover)):
+        w = fn(pp, torch, sc, run)
+        if w:
+            res.append((key, w))
     return res
 
 
@@ -513,10 +926,11 @@ def gen_float(rng, dtype, F, B, chunks, with_rot, gravity, style, reset=False, p
         if style == 'imu':
             return fl(rng.choice([0.005, 0.01, 0.0025]) * rng.uniform(0.9, 1.1))
         return fl(math.exp(rng.uniform(math.log(1e-4), 0.0)))
-    ws = {'imu': 0.5, 'wild': 6.0, 'still': 0.0}[style]
+    WS = {'imu': 0.5, 'wild': 6.0, 'still': 0.0}
+    ws = [WS[['still', 'wild', 'imu'][b % 3] if style == 'mixed' else style] for b in range(B)]   # mixed: special and generic IMUs in one batch
     mk = lambda n: dict(
         dt=[[dtv() for _ in range(n)] for _ in range(B)],
-        gyro=[[[fl(rng.gauss(0, ws)) for _ in range(3)] for _ in range(n)] for _ in range(B)],
+        gyro=[[[fl(rng.gauss(0, ws[b])) for _ in range(3)] for _ in range(n)] for b in range(B)],
         acc=[[[fl(rng.gauss(0, 4.0) + (9.8 if i == 2 else 0)) for i in range(3)] for _ in range(n)] for _ in range(B)],
         rot=[[[fl(x) for x in rand_unit(rng)] for _ in range(n)] for _ in range(B)] if with_rot else None,
         ranks=[rank] * 4)
@@ -537,6 +951,65 @@ def witness():
                 calls=[mk([[1.0, 0.0, 0.0], [0.0, 1.0, 0.0]]), mk([[0.0, 0.0, 1.0]])], route='exact', F=3, B=1)
 
 
+def rand_state(rng, route, dtype='float64', B=None):
+    """a (pos, rot, vel) description: one state, or one per IMU when B is given"""
+    import struct
+    fl = (lambda x: struct.unpack('f', struct.pack('f', x))[0]) if dtype == 'float32' else float
+
+    def one():
+        if route == 'exact':
+            return dict(pos=[dy(rng, 2, 8.0) for _ in range(3)], rot=list(rng.choice(HURWITZ)), vel=[dy(rng, 3, 4.0) for _ in range(3)])
+        return dict(pos=[fl(rng.uniform(-10, 10)) for _ in range(3)], rot=[fl(x) for x in rand_unit(rng)], vel=[fl(rng.uniform(-3, 3)) for _ in range(3)])
+    if B is None:
+        return one()
+    items = [one() for _ in range(B)]
+    return {k: [it[k] for it in items] for k in ('pos', 'rot', 'vel')}
+
+
+def decorate(rng, sc, mode):
+    """call forms / histories the plain generators do not produce (the scenario stays inside the documented domain):
+      init_first : the initial state goes to init_state of the first call (reset=False), the constructor gets ANOTHER state
+                   (or its defaults); init_all: the same for every call of a reset=True object;
+      cov_call   : sensor covariances as per-call arguments, the constructor gets other values;
+      reanchor   : a later call of the history is given a new init_state;
+      per_item   : one initial state per IMU, (B,1,H), to the constructor or to init_state;
+      mixed_rot  : calls with and without a supplied rotation on one object"""
+    sc = dict(sc, calls=[dict(c) for c in sc['calls']])
+    route, dtype, B = sc['route'], sc['dtype'], len(sc['calls'][0]['dt'])
+    st = dict(pos=sc['pos'], rot=sc['rot'], vel=sc['vel'])
+    decoy = lambda: (rand_state(rng, route, dtype) if rng.random() < 0.7 else dict(pos=None, rot=None, vel=None))
+    if mode in ('init_first', 'init_all'):
+        sc.update(decoy())
+        sc['state_form'] = rng.choice([1, 2, 3])
+        for i, c in enumerate(sc['calls']):
+            if i == 0 or mode == 'init_all':
+                c['init'] = dict(st, form=rng.choice([1, 2, 3]))
+        if mode == 'init_all':
+            sc['reset'] = True
+    elif mode == 'cov_call':
+        v3 = lambda v: [v] * 3 if isinstance(v, float) else v
+        sc['call_cov'] = dict(gyro_cov=v3(sc['gyro_cov']), acc_cov=v3(sc['acc_cov']), form=rng.choice([1, 3]))
+        if rng.random() < 0.7:
+            sc['gyro_cov'], sc['acc_cov'] = [0.25, 0.5, 0.125], [2.0, 0.5, 1.0]
+        else:
+            sc['gyro_cov'], sc['acc_cov'] = None, None
+    elif mode == 'reanchor':
+        for i, c in enumerate(sc['calls']):
+            if i >= 1 and (i == len(sc['calls']) - 1 or rng.random() < 0.4):
+                c['init'] = dict(rand_state(rng, route, dtype, B if rng.random() < 0.4 else None), form=rng.choice([1, 2, 3]))
+    elif mode == 'per_item':
+        if rng.random() < 0.5:
+            sc.update(rand_state(rng, route, dtype, B))
+        else:
+            sc.update(decoy())
+            sc['calls'][0]['init'] = rand_state(rng, route, dtype, B)
+    elif mode == 'mixed_rot':
+        for i, c in enumerate(sc['calls']):
+            if i % 2 == 1:
+                c['rot'] = None
+    return sc
+
+
 def sc_key(sc):
     return hashlib.md5(json.dumps(sc, sort_keys=True).encode()).hexdigest()[:12]
 
@@ -555,9 +1028,15 @@ def run(ctx):
     scen = []          # (scenario, run, route, cov_exact)
 
     def add(sc, cov_exact=False, coq=True):
+        if 'layout' not in sc:
+            sc['layout'] = LAYOUTS[len(scen) % len(LAYOUTS)]      # memory layout of the argument tensors: rotates
         r = run_impl(pp, torch, sc)
         scen.append((sc, r, sc['route'], cov_exact, coq))
         nfr = sum(len(c['dt'][0]) for c in sc['calls'])
+        form = '+'.join(['init_state'] * any(c.get('init') is not None for c in sc['calls']) + ['call_cov'] * (sc.get('call_cov') is not None)
+                        + ['per_item_state'] * (len(all_states(sc)) > 1 + sum(c.get('init') is not None for c in sc['calls']))) or 'plain'
+        ctx.count('form:' + form)
+        ctx.count('layout:' + sc['layout'])
         ctx.case((sc['route'], sc_key(sc)), nontrivial=nfr >= 2,
                  branch='%s/%s/B%d/%s/%s/%s' % (sc['route'], sc['dtype'], sc.get('B', 0), 'rot' if sc['calls'] and sc['calls'][0].get('rot') is not None else 'norot',
                                                 'g0' if sc['gravity'] == 0 else 'g', 'chunks%d' % len(sc['calls']) if len(sc['calls']) > 1 else 'single'),
@@ -570,6 +1049,7 @@ def run(ctx):
 
     # ---------------------------------------------------------------- 0: directed regression case (defect repaired in /repo 608b3d9)
     wsc = witness()
+    wsc['layout'] = 'fresh'
     wr = add(wsc, cov_exact=True)
     for key, what in property_check(pp, torch, wsc, wr):
         ctx.violation(key, what, slim(wsc))
@@ -602,14 +1082,31 @@ def run(ctx):
     sc = gen_exact(rng, 3, 1, [3], True, G)                                     # rot has more frames than dt
     sc['calls'][0]['rot'] = [sc['calls'][0]['rot'][0] + [HURWITZ[5]]]
     d.append(sc)
+    # call forms: init_state / gyro_cov / acc_cov as arguments of forward (the constructor holds OTHER values), several
+    # calls on a reset=True object (other batch size, other frame count, with / without rot), one state per IMU
+    d.append(decorate(rng, gen_exact(rng, 5, 2, [2, 3], False, G), 'init_first'))
+    d.append(decorate(rng, gen_exact(rng, 5, 1, [3, 2], False, G), 'init_all'))
+    d.append(decorate(rng, gen_exact(rng, 4, 2, [1, 3], True, G), 'cov_call'))
+    d.append(decorate(rng, decorate(rng, gen_exact(rng, 6, 3, [2, 1, 3], False, 9.75), 'cov_call'), 'init_first'))
+    sc = gen_exact(rng, 4, 2, [2, 2], True, G, reset=True)
+    sc['calls'][1] = gen_exact(rng, 3, 3, [3], False, G)['calls'][0]
+    d.append(sc)
+    d.append(decorate(rng, gen_exact(rng, 6, 2, [2, 2, 2], False, G), 'reanchor'))
+    d.append(decorate(rng, gen_exact(rng, 5, 3, [4, 1], False, G), 'per_item'))
+    d.append(decorate(rng, gen_exact(rng, 6, 2, [1, 2, 3], True, G), 'mixed_rot'))
     for i, sc in enumerate(d):
         add(sc, cov_exact=(i in (10, 11)))
+    MODES = [None, None, None, 'init_first', 'init_all', 'cov_call', 'reanchor', 'per_item', 'mixed_rot']
+
+    def form(sc):
+        mode = rng.choice(MODES)
+        return sc if mode is None else decorate(rng, sc, mode)
     # exact route, random: moderate F with covariance, large F (incl. non powers of two) without
     Fs_small = [1, 2, 3, 4, 5, 6, 7, 9, 12, 13, 17]
     for k in range(ctx.scale(14, 60)):
         F = rng.choice(Fs_small)
         B = rng.randint(1, 4)
-        add(gen_exact(rng, F, B, split_sizes(rng, F, rng.choice([1, 1, 2, 3])), rng.random() < 0.5, rng.choice([0.0, G, 9.75])))
+        add(form(gen_exact(rng, F, B, split_sizes(rng, F, rng.choice([1, 1, 2, 3])), rng.random() < 0.5, rng.choice([0.0, G, 9.75]))))
     for F in ctx.scale([31, 33, 100, 127, 200], [24, 31, 33, 63, 65, 100, 127, 128, 129, 150, 199, 200]):
         add(gen_exact(rng, F, rng.randint(1, 4), [F], rng.random() < 0.5, rng.choice([0.0, G]), reset=True, prop_cov=False))
 
@@ -625,10 +1122,10 @@ def run(ctx):
         for _ in range(reps):
             dtype = 'float64' if rng.random() < 0.7 else 'float32'
             B = rng.randint(1, 4)
-            style = rng.choice(['imu', 'imu', 'wild', 'wild', 'still'])
+            style = rng.choice(['imu', 'imu', 'wild', 'wild', 'still', 'mixed'])
             nch = rng.choice([1, 2, 2, 3, 5]) if F > 1 else 1
             chunks = split_sizes(rng, F, nch)
-            sc = gen_float(rng, dtype, F, B, chunks, rng.random() < 0.4, rng.choice([0.0, 9.81007, 9.81007, 1.625]), style)
+            sc = form(gen_float(rng, dtype, F, B, chunks, rng.random() < 0.4, rng.choice([0.0, 9.81007, 9.81007, 1.625]), style))
             cost = F * B
             coq = cost <= 60 and budget[0] >= cost
             if coq:
@@ -637,13 +1134,21 @@ def run(ctx):
         if F > 24:
             # long streams through Coq without the covariance (reset=True, prop_cov=False, one call): the prefix scan
             dtype = 'float64' if rng.random() < 0.7 else 'float32'
-            add(gen_float(rng, dtype, F, rng.randint(1, 3), [F], rng.random() < 0.4, rng.choice([0.0, 9.81007]),
-                          rng.choice(['imu', 'wild']), reset=True, prop_cov=False))
+            sc = gen_float(rng, dtype, F, rng.randint(1, 3), [F], rng.random() < 0.4, rng.choice([0.0, 9.81007]),
+                           rng.choice(['imu', 'wild']), reset=True, prop_cov=False)
+            add(decorate(rng, sc, 'init_all') if rng.random() < 0.3 else sc)
     # one long chunked stream with covariance through Coq
     add(gen_float(rng, 'float64', 100, 1, [37, 1, 62], False, 9.81007, 'imu'))
     # one-frame calls repeated (pure history), float
     add(gen_float(rng, 'float64', 12, 2, [1] * 12, False, 9.81007, 'wild'))
     add(gen_float(rng, 'float32', 9, 1, [1] * 9, True, 9.81007, 'imu'))
+    # call forms on generic floats (every run): init_state to the first call / to every call of a reset=True object,
+    # per-call covariances, re-anchoring in the middle of a history, one state per IMU, calls with and without rot
+    for mode, dtype, F, B, nch, wr_ in (('init_first', 'float64', 23, 3, 4, False), ('init_first', 'float32', 9, 2, 2, False),
+                                        ('init_all', 'float64', 12, 2, 3, False), ('cov_call', 'float64', 8, 2, 2, True),
+                                        ('reanchor', 'float64', 14, 2, 3, False), ('per_item', 'float32', 10, 3, 2, False),
+                                        ('per_item', 'float64', 16, 4, 3, True), ('mixed_rot', 'float64', 11, 2, 4, True)):
+        add(decorate(rng, gen_float(rng, dtype, F, B, split_sizes(rng, F, nch), wr_, 9.81007, rng.choice(['imu', 'wild', 'mixed'])), mode))
 
     # ---------------------------------------------------------------- property clauses on the implementation
     for (sc, r, route, cov_exact, coq) in scen[1:]:
@@ -654,8 +1159,10 @@ def run(ctx):
     files, index = [], {}
     shards = {'Q': [], 'fx': []}
     for i, (sc, r, route, cov_exact, coq) in enumerate(scen):
-        if not coq:
+        mv = model_view(sc, r) if coq else None
+        if mv is None:
             continue
+        sc, r = mv
         e = Enc()
         if route == 'exact':
             e.case(i, sc, r, tolerances(sc, r, exact=True, cov_exact=cov_exact))
@@ -714,7 +1221,7 @@ def run(ctx):
 
 def variants(rng, sc):
     """scenarios derived from sc for the search: prefixes of the stream in one call, every 2-chunking of short prefixes"""
-    if not sc['calls'] or any(c['ranks'] != [3, 3, 3, 3] for c in sc['calls']):
+    if not sc['calls'] or not views_applicable(sc) or any(c.get('init') is not None for c in sc['calls'][1:]):
         return
     try:
         one = single_call(sc)
@@ -723,7 +1230,8 @@ def variants(rng, sc):
     c = one['calls'][0]
     Ftot = len(c['dt'][0])
     cut = lambda a, b: dict(ranks=[3, 3, 3, 3], dt=[r[a:b] for r in c['dt']], gyro=[r[a:b] for r in c['gyro']],
-                            acc=[r[a:b] for r in c['acc']], rot=None if c.get('rot') is None else [r[a:b] for r in c['rot']])
+                            acc=[r[a:b] for r in c['acc']], rot=None if c.get('rot') is None else [r[a:b] for r in c['rot']],
+                            init=c.get('init') if a == 0 else None)
     for n in [1, 2, 3, 4, 5, 8, Ftot]:
         if n <= Ftot:
             yield dict(sc, calls=[cut(0, n)], reset=False, prop_cov=True)
